@@ -31,6 +31,7 @@ func Gen(t *rapid.T) *Case {
 		if h.Panic != "" {
 			h.ValKind = rapid.SampledFrom([]string{"string", "error", "int", "struct", "nilerrptr", "badstringer", "nil"}).Draw(t, "val")
 		}
+		h.Replay = c.Store && !h.Ctx && rapid.Bool().Draw(t, "replaySub")
 		c.Handlers = append(c.Handlers, h)
 	}
 	return c
